@@ -8,9 +8,9 @@ from ..pm import U
 from ..report import VERIF
 from . import common as C
 
-TECHNIQUE = "static analysis: shared-state inventory from the AST; inter-procedural aliasing-depth (ownership/effects) analysis with function summaries over the name-resolved call graph: no in-place mutator may be applied to model storage, default-argument objects, class attributes or module globals on a path from an analysis entry point"
+TECHNIQUE = "static analysis: shared-state inventory from the AST; inter-procedural aliasing-depth (ownership/effects) analysis with function summaries over the name-resolved call graph: no in-place mutator may be applied to model storage, default-argument objects, class attributes or module globals on a path from an analysis entry point; who-may-write check for process-global state of imported libraries and the interpreter"
 EXPLANATION = (
-    "R1: all process-wide mutable state (module globals and class attributes holding mutable objects, singletons, memoised functions, mutable default arguments) is enumerated from the source and compared with the reviewed list spec/shared_state.json. R2: an aliasing-depth analysis (0 = the object itself is shared storage; attribute/subscript/iteration descend, copy idioms and deepcopy ascend; function summaries for returned labels and mutated parameters, computed for arguments that are shared themselves and for fresh containers whose elements / elements' elements are shared; the return value of a function under functools.lru_cache/cache is shared storage unless it is certainly immutable; field-based for attributes stored outside constructors) finds every in-place mutator (+= on a possibly-mutable value, append/extend/insert/remove/pop/sort/reverse/update/setdefault, item/attribute store, del) applied to a depth-0 value in any function reachable from the analysis entry points; the loader's building branch, the cache insert and the AArch64 write-back flag stores are declared exceptions, the last one conditional on a data fact re-checked on every run. R3: no attribute store on a parser singleton outside __init__/construct_parser."
+    "R1: all process-wide mutable state (module globals and class attributes holding mutable objects, singletons, memoised functions, mutable default arguments) is enumerated from the source and compared with the reviewed list spec/shared_state.json. R2: an aliasing-depth analysis (0 = the object itself is shared storage; attribute/subscript/iteration descend, copy idioms and deepcopy ascend; function summaries for returned labels and mutated parameters, computed for arguments that are shared themselves and for fresh containers whose elements / elements' elements are shared; the return value of a function under functools.lru_cache/cache is shared storage unless it is certainly immutable; field-based for attributes stored outside constructors) finds every in-place mutator (+= on a possibly-mutable value, append/extend/insert/remove/pop/sort/reverse/update/setdefault, item/attribute store, del) applied to a depth-0 value in any function reachable from the analysis entry points; the loader's building branch, the cache insert and the AArch64 write-back flag stores are declared exceptions, the last one conditional on a data fact re-checked on every run. R3: no attribute store on a parser singleton outside __init__/construct_parser. R4: no call of a process-global setter (pyparsing ParserElement defaults/packrat, sys/os/locale/warnings/random/yaml registries; table GLOBAL_SETTERS) and no attribute/item store or in-place edit whose receiver is an imported non-osaca module or a class reached from it by attributes only (pp.ParserElement.X = .., os.environ[..] = .., sys.path.insert(..)) anywhere in the package: such state outlives the analysis and, written from lazily executed code, applies only to what is built afterwards."
 )
 NOT_DECIDED = "Equality of reports across call sequences and with fresh-process runs (behavioural)."
 ASSUMPTIONS = [
@@ -237,3 +237,103 @@ def run(ctx):
                 return False
             ctx.judge(bool(stores) and all(guarded(n) for n in stores), bool(stores), "R3", "%s.__new__ creates the instance once" % cname,
                       nw.where(), "the singleton instance is (re)created although one may already exist", nw.qname, "__new__")
+    # ------------------------------------------------------------------ R4 library / interpreter state
+    ctx.rule("R4", "no process-global state of an imported library or of the interpreter is written by the package")
+    n_calls = library_state_findings(ctx, "R4")
+    ctx.extra["module_rooted_calls_examined"] = n_calls
+
+
+# process-global setters of the libraries the package imports and of the standard library: (root module, trailing name)
+GLOBAL_SETTERS = {
+    # pyparsing: defaults consulted when grammar elements are CREATED (parsers here are lazily built singletons)
+    "setDefaultWhitespaceChars", "set_default_whitespace_chars", "setDefaultKeywordChars", "set_default_keyword_chars",
+    "inlineLiteralsUsing", "inline_literals_using",
+    # interpreter / standard library state that can change what an analysis computes or prints
+    "setrecursionlimit", "setlocale", "seed", "chdir", "set_start_method",
+    # ruamel.yaml / yaml class-level registries used by every later dump or load
+    "add_representer", "add_constructor", "add_implicit_resolver",
+}
+# deliberately not listed (process-global, but without influence on a report): pyparsing packrat / left-recursion
+# switches (memoisation only), warnings filters and logging configuration (stderr only), umask, socket timeouts
+
+
+def library_state_findings(ctx, rule):
+    """Calls and stores whose receiver is an imported (non-osaca) module or a class reached from it by attributes only:
+    `pp.ParserElement.setDefaultWhitespaceChars(..)`, `sys.setrecursionlimit(..)`, `os.environ[..] = ..`, `pp.X.attr = ..`,
+    `sys.path.insert(..)`. Such state outlives the analysis that wrote it and - when the write sits in lazily executed
+    code like a singleton's constructor - makes later results depend on what ran before."""
+    n = 0
+    for m in ctx.repo.modules.values():
+        if m.rel.startswith(Effects.TOOLING_PREFIX):
+            continue
+        ext = {}        # local alias -> external module / imported external name
+        for s in ast.walk(m.tree):
+            if isinstance(s, ast.Import):
+                for a in s.names:
+                    if not a.name.startswith("osaca"):
+                        ext[(a.asname or a.name).split(".")[0]] = a.name
+            elif isinstance(s, ast.ImportFrom) and s.level == 0 and s.module and not s.module.startswith("osaca"):
+                for a in s.names:
+                    ext[a.asname or a.name] = "%s.%s" % (s.module, a.name)
+
+        def chain(e):
+            """(root alias, [attrs]) when e is Name(.attr)* rooted at an external import, else None"""
+            attrs = []
+            while isinstance(e, ast.Attribute):
+                attrs.append(e.attr)
+                e = e.value
+            if isinstance(e, ast.Name) and e.id in ext:
+                return e.id, attrs[::-1]
+            return None
+
+        mfuncs = [f for f in ctx.repo.all_funcs() if f.module is m]
+
+        def where(node):
+            inside = [f for f in mfuncs if any(x is node for x in ast.walk(f.node))]
+            f = min(inside, key=lambda f: sum(1 for _ in ast.walk(f.node))) if inside else None
+            return "%s:%d" % (m.rel, node.lineno), (f.qname if f is not None else m.stem)
+
+        shadow = {n_.id for n_ in ast.walk(m.tree) if isinstance(n_, ast.Name) and isinstance(n_.ctx, ast.Store)}
+        for node in ast.walk(m.tree):
+            if isinstance(node, ast.Call):
+                c = chain(node.func)
+                if c is None or not c[1] or c[0] in shadow:
+                    continue
+                n += 1
+                root, attrs = c
+                if attrs[-1] in GLOBAL_SETTERS:
+                    w, q = where(node)
+                    ctx.bad(rule, "%s in %s" % (U(node.func), q), w,
+                            "`%s(...)` writes process-global state of %s: it stays in force for every later analysis of the "
+                            "process and - executed lazily (singleton construction, first use) - only for what is built AFTER it, "
+                            "so a report depends on which analyses ran before" % (U(node.func), ext[root]), q, U(node)[:120],
+                            m.excerpt(node))
+                elif len(attrs) >= 2 and attrs[-1] in MUTATORS_ON_MODULE_STATE and attrs[-2] in ("path", "environ", "modules", "argv", "meta_path", "filters"):
+                    w, q = where(node)
+                    ctx.bad(rule, "%s in %s" % (U(node.func), q), w,
+                            "`%s(...)` edits %s.%s, interpreter-wide state" % (U(node.func), ext[root], attrs[-2]), q,
+                            U(node)[:120], m.excerpt(node))
+            tgts = []
+            if isinstance(node, ast.Assign):
+                tgts = node.targets
+            elif isinstance(node, (ast.AugAssign, ast.AnnAssign)):
+                tgts = [node.target]
+            elif isinstance(node, ast.Delete):
+                tgts = node.targets
+            for t in tgts:
+                base = t.value if isinstance(t, ast.Subscript) else t
+                c = chain(base)
+                if c is None or c[0] in shadow:
+                    continue
+                if isinstance(t, ast.Attribute) or (isinstance(t, ast.Subscript) and c[1]):
+                    n += 1
+                    w, q = where(node)
+                    ctx.bad(rule, "store %s in %s" % (U(t), q), w,
+                            "`%s` is a store into state owned by the imported %s: it is shared by everything in the process "
+                            "that uses the library" % (U(t)[:80], ext[c[0]]), q, U(node)[:120], m.excerpt(node))
+    ctx.floor(rule, "calls on imported modules / their classes examined", n, 100)
+    ctx.ok(rule, "%d calls / stores on imported modules and their classes examined" % n, "")
+    return n
+
+
+MUTATORS_ON_MODULE_STATE = {"append", "insert", "extend", "remove", "pop", "clear", "update", "setdefault", "sort", "reverse"}
